@@ -146,14 +146,23 @@ type Resp struct {
 }
 
 type failReader struct {
-	data []byte
-	err  error
-	off  int
+	data   []byte
+	err    error
+	off    int
+	hookAt int // call hook once this many bytes were delivered (-1: never)
+	hook   func()
 }
 
 func (f *failReader) Read(p []byte) (int, error) {
+	if f.hook != nil && f.off >= f.hookAt {
+		f.hook()
+		f.hook = nil
+	}
 	if f.off >= len(f.data) {
 		return 0, f.err
+	}
+	if f.hook != nil && f.off+len(p) > f.hookAt && f.hookAt > f.off {
+		p = p[:f.hookAt-f.off]
 	}
 	n := copy(p, f.data[f.off:])
 	f.off += n
@@ -213,7 +222,17 @@ func BuildRequest(r vfs.Req) (*http.Request, context.CancelFunc, error) {
 		if k > len(r.Body) {
 			k = len(r.Body)
 		}
-		req.Body = &failReader{data: []byte(r.Body[:k]), err: ferr}
+		req.Body = &failReader{data: []byte(r.Body[:k]), err: ferr, hookAt: -1}
+	}
+	if r.CancelAfter != nil {
+		ctx, c := context.WithCancel(req.Context())
+		req = req.WithContext(ctx)
+		k := *r.CancelAfter
+		if k > len(r.Body) {
+			k = len(r.Body)
+		}
+		req.Body = &failReader{data: []byte(r.Body), err: io.EOF, hookAt: k, hook: c}
+		cancel = c
 	}
 	return req, cancel, nil
 }
@@ -323,7 +342,16 @@ func ParseMultiStatus(body []byte) ([]Reported, error) {
 		if len(r.Hrefs) != 1 {
 			return nil, fmt.Errorf("response with %d hrefs", len(r.Hrefs))
 		}
-		u, err := url.Parse(strings.TrimSpace(r.Hrefs[0]))
+		// an href is read the way it would be used when sent back as a
+		// request-target: a leading "//" is part of the path, not an authority
+		h := strings.TrimSpace(r.Hrefs[0])
+		var u *url.URL
+		var err error
+		if strings.HasPrefix(h, "/") {
+			u, err = url.ParseRequestURI(h)
+		} else {
+			u, err = url.Parse(h)
+		}
 		if err != nil {
 			return nil, fmt.Errorf("href %q: %v", r.Hrefs[0], err)
 		}
